@@ -1,6 +1,7 @@
 """C06 — apply_modifiers unrolls n back-to-back copies, once (DESIGN.md 7, C06)."""
 import coregen
-from coregen import gen_case, gen_prog, gen_env, nontrivial as _nt, c_case, shrink_candidates
+from coregen import gen_case, gen_prog, gen_env, nontrivial as _nt, c_case
+import libgen
 
 ID = 'C06'
 GEN_MODULES = ['Ident', 'Classes']
@@ -8,7 +9,7 @@ MODEL_TARGETS = ['coq/C06/Run.vo']
 PROOF_TARGETS = ['coq/C06/Proofs.vo']
 PROPS_FILE = 'coq/Props/C06.v'
 RUN_MODULE = 'QCE.C06.Run'
-COQ_HEADER = 'From Gen Require Import Ident Classes.\nFrom QCE Require Import Core.Model Core.Run.'
+COQ_HEADER = 'From Gen Require Import Ident Classes.\nFrom QCE Require Import Core.Model Core.Run Lib.Run.'
 IMPL = 'harness/impl/core_impl.py'
 IMPL_KW = {'shards': 12}
 SHARD = 80
@@ -31,22 +32,44 @@ def gen_cases(rng, tier):
             c = gen_case(rng, maxlen=rng.choice([3, 5, 8]), depth=3, p_sub=0.3, reps=(1, 2, 2, 3, 4))
         c['obs'] = ['plain', 'unrolled']
         cases.append(c)
+    # library-built circuits: the unrolled listing of a repeated block must be the n-fold concatenation of its listing
+    nlib = 24 if tier == 'quick' else 300
+    for _ in range(nlib):
+        c = libgen.gen_repcode(rng, max_d=3 if tier == 'quick' else 5, max_cycles=5 if tier == 'quick' else 8)
+        c['obs'] = ['structure', 'plain', 'unrolled']
+        cases.append(c)
     return cases
 
 
+def shrink_candidates(case):
+    if case.get('k'):
+        if case['cycles'] > 0:
+            yield dict(case, cycles=case['cycles'] - 1)
+        return
+    yield from coregen.shrink_candidates(case)
+
+
 def to_coq(c, o):
-    return c_case(c, o)
+    if c.get('k'):
+        return f"(KLib {libgen.c_lcase(c, o)})"
+    return f"(KCore {c_case(c, o)})"
 
 
 def nontrivial(c, o):
+    if c.get('k'):
+        return c['cycles'] >= 3
     return coregen.max_reps(c['prog']) >= 2 and coregen.n_leaves(c['prog']) >= 2
 
 
 def kind(c):
+    if c.get('k'):
+        return 'library:' + c['k']
     return 'single-block' if len(c['prog']) == 1 and c['prog'][0]['t'] == 'sub' else ('nested' if coregen.has_sub(c['prog']) else 'flat')
 
 
 def sample(c, o):
+    if c.get('k'):
+        return {'library_input': c}
     return {'prog': c['prog'], 'unrolled_len': len((o.get('unrolled') or {}).get('ops', []))}
 
 
